@@ -95,7 +95,7 @@ class H:
                  bounds='', stubs=(), assumptions=(), out_of_claim='', samples=(), native=True, sanitize=True,
                  object_bits=None, backends=('cadical',), native_srcs=None, native_extra=(), tiers=('quick', 'thorough'),
                  include_src=(), irc_extra_cc=(), no_checks=False, native_cflags=(), witness_unwind=None, tv=True,
-                 native_cc_defs=(), slice_formula=False, tracked=(), allow_undef=()):
+                 native_cc_defs=(), slice_formula=False, tracked=(), allow_undef=(), native_lib=()):
         self.name = name; self.engine = engine; self.harness = harness
         self.repo_srcs = list(repo_srcs); self.wrapper = wrapper; self.extra = list(extra); self.models = list(models)
         self.entry = entry
@@ -119,6 +119,7 @@ class H:
         self.native_cc_defs = list(native_cc_defs)
         self.slice_formula = slice_formula
         self.tracked = list(tracked); self.allow_undef = list(allow_undef)
+        self.native_lib = list(native_lib)   # repo source dirs compiled once per run into a static archive for native builds
 
     def tier_val(self, v, tier):
         if isinstance(v, dict) and ('quick' in v or 'thorough' in v):
@@ -348,6 +349,44 @@ def friendly(vals):
 # ------------------------------------------------------------------ native builds (replay + translation validation)
 SAN = ['-fsanitize=address,undefined', '-fno-sanitize-recover=undefined', '-fno-omit-frame-pointer']
 
+import threading
+_nlib_lock = threading.Lock()
+_nlib_cache = {}
+def native_lib_archive(dirs, sanitize, scratch):
+    """compile every .cc/.c of the given /repo source dirs (current working tree) once per run into a static archive."""
+    key = (tuple(dirs), bool(sanitize))
+    with _nlib_lock:
+        if key in _nlib_cache:
+            return _nlib_cache[key]
+        d = os.path.join(scratch, 'nativelib_%s%s' % ('_'.join(x.replace('/', '-') for x in dirs), '_san' if sanitize else ''))
+        os.makedirs(d, exist_ok=True)
+        srcs = []
+        for dd in dirs:
+            full = rpath(dd)
+            for f in sorted(os.listdir(full)):
+                if f.endswith('.cc') or f.endswith('.c'):
+                    srcs.append(os.path.join(full, f))
+        san = SAN if sanitize else []
+        def one(a):
+            i, sfile = a
+            o = os.path.join(d, 'l%d.o' % i)
+            if sfile.endswith('.c'):
+                cmd = ['gcc', '-c', c_std(), '-DNDEBUG', '-w', '-g', '-O0'] + repo_includes() + san + [sfile, '-o', o]
+            else:
+                cmd = ['g++', '-c', '-std=c++11', '-w', '-g', '-O0'] + repo_includes() + san + [sfile, '-o', o]
+            rc, out, _, _ = run(cmd)
+            if rc != 0:
+                raise Fault('native library build failed on %s:\n%s' % (sfile, out[-2000:]))
+            return o
+        with ThreadPoolExecutor(16) as ex:
+            objs = list(ex.map(one, enumerate(srcs)))
+        ar = os.path.join(d, 'libreal.a')
+        rc, out, _, _ = run(['ar', 'rcs', ar] + objs)
+        if rc != 0:
+            raise Fault('ar failed: ' + out[-1000:])
+        _nlib_cache[key] = ar
+        return ar
+
 def build_native_real(h, tier, wd, extra_defs, sanitize):
     """the REAL code: C units by gcc with the real flags / C++ units by g++ against the real libstdc++."""
     defs = defflags(dict(h.tier_defs(tier), **extra_defs)) + ['-DNATIVE=1']
@@ -366,7 +405,8 @@ def build_native_real(h, tier, wd, extra_defs, sanitize):
         rc, out, _, _ = run(['gcc', '-no-pie', '-Wl,--unresolved-symbols=ignore-all'] + san + objs + ['-o', exe, '-lm'])
     else:
         cxxflags = ['-std=c++11', '-w', '-g', '-O0'] + repo_includes() + ['-I' + LIB, '-I' + os.path.dirname(vpath(h.wrapper))] + h.native_cflags
-        srcs = [rpath(s) for s in (h.native_srcs if h.native_srcs is not None else h.repo_srcs)] + [vpath(h.wrapper)] + [vpath(x) for x in h.native_extra]
+        srcs = [rpath(s) for s in ((h.native_srcs if h.native_srcs is not None else h.repo_srcs) if not h.native_lib else [])] + [vpath(h.wrapper)] + [vpath(x) for x in h.native_extra]
+        libs = [native_lib_archive(h.native_lib, sanitize, os.path.dirname(wd))] if h.native_lib else []
         def one(a):
             i, s = a
             o = os.path.join(wd, 'n%d%s.o' % (i, '_san' if sanitize else ''))
@@ -385,7 +425,7 @@ def build_native_real(h, tier, wd, extra_defs, sanitize):
         if rc != 0:
             raise Fault('native gcc failed on harness:\n%s' % out[-3000:])
         objs.append(o)
-        rc, out, _, _ = run(['g++'] + san + objs + ['-o', exe, '-lm'])
+        rc, out, _, _ = run(['g++'] + san + objs + (['-Wl,--start-group'] + libs + ['-Wl,--end-group'] if libs else []) + ['-o', exe, '-lm'])
     if rc != 0:
         raise Fault('native link failed:\n%s' % out[-3000:])
     return exe
@@ -395,7 +435,7 @@ def build_native_gen(h, tier, wd, extra_defs, genc):
     defs = defflags(dict(h.tier_defs(tier), **extra_defs)) + ['-DNATIVE=1', '-DNATIVE_GEN=1']
     exe = os.path.join(wd, 'gen_native')
     srcs = [genc, vpath(h.harness)] + [vpath(x) for x in h.extra + h.models]
-    rc, out, _, _ = run(['gcc', '-std=gnu11', '-w', '-g', '-O0', '-fno-builtin', '-I' + LIB, '-I' + os.path.dirname(vpath(h.harness))] + defs + srcs + ['-o', exe, '-lm'])
+    rc, out, _, _ = run(['gcc', '-std=gnu11', '-w', '-g', '-O0', '-fno-builtin', '-fno-pie', '-no-pie', '-Wl,--unresolved-symbols=ignore-all', '-I' + LIB, '-I' + os.path.dirname(vpath(h.harness))] + defs + srcs + ['-o', exe, '-lm'])
     if rc != 0:
         raise Fault('native build of generated C failed:\n%s' % out[-3000:])
     return exe
